@@ -259,6 +259,10 @@ def run(model, tier="quick"):
     n_writers, caches = run_cache(model, res, "AaveV3Market", "C01")
     res.floor("aave_cache_writer_methods", n_writers, 6)
     res.floor("obligations", len(res.obligations), 17)
+    from ..rules.fresh import fresh_rule
+    if "R-FRESH" not in res.rules:
+        res.rules.append("R-FRESH")
+    fresh_rule(model, res, scope=('demeter/aave/', 'demeter/uniswap/', 'demeter/squeeth/', 'demeter/deribit/', 'demeter/gmx/', 'demeter/core/'))
     res.assumptions = ["valuation inputs (prices, marks, pool value) come from the bar's data (not validated)"]
     res.not_decided = ["that the valuation INPUTS are right", "Aave's 1e-4 quantisation as a number"]
     return res
